@@ -426,6 +426,94 @@ proof fn theorem_context_roundtrip(c: Context, rest: Seq<u8>)
     assert(dec_po(enc_po(c.options) + rest) == Some((c.options, rest)));
 }
 
+// ---------------------------------------------------------------------------------------------------------------------
+// BatchMerkleProof::deserialize (crypto/src/merkle/proofs.rs): one byte = number of node vectors; per vector one byte = number
+// of digests, then the digests. Ok exactly when depth > 0, 1 <= leaves <= MAX_PATHS and every announced vector can be decoded;
+// the node vectors are the decoded digests in order, leaves and depth are passed through. The digest type is abstract.
+#[derive(Copy, Clone, PartialEq, Eq, Structural)]
+pub struct D(pub u64);
+pub uninterp spec fn dec_d(s: Seq<u8>) -> Option<(D, Seq<u8>)>;
+pub open spec fn dec_ds(s: Seq<u8>, n: nat) -> Option<(Seq<D>, Seq<u8>)>
+    decreases n
+{
+    if n == 0 { Some((Seq::<D>::empty(), s)) } else {
+        match dec_d(s) { None => None, Some((x, r1)) => match dec_ds(r1, (n - 1) as nat) { None => None, Some((xs, r2)) => Some((seq![x] + xs, r2)) } }
+    }
+}
+// one node vector: count byte, then that many digests
+pub open spec fn dec_nv(s: Seq<u8>) -> Option<(Seq<D>, Seq<u8>)> {
+    match dec_u8(s) { None => None, Some((k, r)) => dec_ds(r, k as nat) }
+}
+pub open spec fn dec_nvs(s: Seq<u8>, n: nat) -> Option<(Seq<Seq<D>>, Seq<u8>)>
+    decreases n
+{
+    if n == 0 { Some((Seq::<Seq<D>>::empty(), s)) } else {
+        match dec_nv(s) { None => None, Some((x, r1)) => match dec_nvs(r1, (n - 1) as nat) { None => None, Some((xs, r2)) => Some((seq![x] + xs, r2)) } }
+    }
+}
+pub open spec fn dec_nvs_acc(acc: Seq<Seq<D>>, s: Seq<u8>, n: nat) -> Option<(Seq<Seq<D>>, Seq<u8>)> {
+    match dec_nvs(s, n) { None => None, Some((xs, r)) => Some((acc + xs, r)) }
+}
+proof fn lemma_nvs_step(acc: Seq<Seq<D>>, s: Seq<u8>, n: nat)
+    requires n >= 1
+    ensures
+        dec_nv(s) is None ==> dec_nvs_acc(acc, s, n) is None,
+        dec_nv(s) is Some ==> dec_nvs_acc(acc, s, n) == dec_nvs_acc(acc.push(dec_nv(s)->Some_0.0), dec_nv(s)->Some_0.1, (n - 1) as nat),
+{
+    if dec_nv(s) is Some {
+        let x = dec_nv(s)->Some_0.0;
+        let r1 = dec_nv(s)->Some_0.1;
+        match dec_nvs(r1, (n - 1) as nat) { None => {}, Some((xs, r2)) => { assert(acc + (seq![x] + xs) =~= acc.push(x) + xs); } }
+    }
+}
+impl Reader {
+    // contract of ByteReader::read_many::<Digest> (read_many is proved from its body in unit serdev)
+    #[verifier::external_body]
+    pub fn read_many_d(&mut self, n: usize) -> (r: Result<Vec<D>, DeserializationError>)
+        ensures
+            r is Ok <==> dec_ds(old(self).rem@, n as nat) is Some,
+            r is Ok ==> r->Ok_0.len() == n && dec_ds(old(self).rem@, n as nat) == Some((r->Ok_0@, final(self).rem@)),
+    { unimplemented!() }
+}
+pub const MAX_PATHS: usize = /*@@expr source="crypto/src/merkle/proofs.rs" anchor="pub(super) const MAX_PATHS: usize ="*/;
+pub struct BatchMerkleProof { pub leaves: Vec<D>, pub nodes: Vec<Vec<D>>, pub depth: u8 }
+pub open spec fn nodes_view(v: Seq<Vec<D>>) -> Seq<Seq<D>> { v.map_values(|x: Vec<D>| x@) }
+impl BatchMerkleProof {
+    //@@ source crypto/src/merkle/proofs.rs
+    //@@ extract anchor="pub fn deserialize<R: ByteReader>("
+    //@@ rewrite-re "DeserializationError::InvalidValue\(\s*\"[^\"]*\"\s*\.to_string\(\),?\s*\)" => "DeserializationError::InvalidValue(err_text())"
+    //@@ rewrite-re "DeserializationError::InvalidValue\(format!\([^;]*\)\)\);" => "DeserializationError::InvalidValue(err_text()));"
+    //@@ rewrite "for _ in 0..num_node_vectors {" => "for k in 0..num_node_vectors {"
+    //@@ rewrite "let mut nodes = Vec::with_capacity(num_node_vectors);" => "let mut nodes: Vec<Vec<D>> = Vec::with_capacity(num_node_vectors);"
+    //@@ rewrite "node_bytes.read_many(num_digests)?" => "node_bytes.read_many_d(num_digests)?"
+    //@@ before "let mut nodes"
+    //@@|        let ghost s1 = node_bytes.rem@;
+    //@@|        proof { assert(Seq::<Seq<D>>::empty() + dec_nvs(s1, num_node_vectors as nat)->Some_0.0 =~= dec_nvs(s1, num_node_vectors as nat)->Some_0.0); }
+    //@@ loop 1
+    //@@|            invariant
+    //@@|                nodes.len() == k, s0 == old(node_bytes).rem@, dec_u8(s0) == Some((num_node_vectors as u8, s1)), num_node_vectors <= 255,
+    //@@|                depth > 0, 1 <= leaves.len() <= MAX_PATHS,
+    //@@|                dec_nvs_acc(nodes_view(nodes@), node_bytes.rem@, (num_node_vectors - k) as nat) == dec_nvs(s1, num_node_vectors as nat),
+    //@@|            ensures
+    //@@|                nodes.len() == num_node_vectors,
+    //@@|                dec_nvs(s1, num_node_vectors as nat) == Some((nodes_view(nodes@), node_bytes.rem@)),
+    //@@ loopstart 1
+    //@@|            proof { lemma_nvs_step(nodes_view(nodes@), node_bytes.rem@, (num_node_vectors - k) as nat); }
+    //@@|            let ghost nodes_before = nodes@;
+    //@@ loopend 1
+    //@@|            proof { assert(nodes_view(nodes@) =~= nodes_view(nodes_before).push(digests@)); }
+    pub fn deserialize(node_bytes: &mut Reader, leaves: Vec<D>, depth: u8) -> (r: Result<Self, DeserializationError>)
+        ensures
+            r is Ok <==> (depth > 0 && 1 <= leaves.len() <= MAX_PATHS && dec_u8(old(node_bytes).rem@) is Some
+                && dec_nvs(dec_u8(old(node_bytes).rem@)->Some_0.1, dec_u8(old(node_bytes).rem@)->Some_0.0 as nat) is Some),
+            r is Ok ==> r->Ok_0.leaves@ == leaves@ && r->Ok_0.depth == depth
+                && dec_nvs(dec_u8(old(node_bytes).rem@)->Some_0.1, dec_u8(old(node_bytes).rem@)->Some_0.0 as nat) == Some((nodes_view(r->Ok_0.nodes@), final(node_bytes).rem@)),
+    {
+        let ghost s0 = node_bytes.rem@;
+        /*@@body*/
+    }
+}
+
 proof fn containerv_canary_must_fail(b: Seq<u8>, rest: Seq<u8>)
     requires prefix_rt()
     ensures dec_v16(enc_u16(b.len() as u16) + b + rest) == Some((b, rest))
